@@ -58,6 +58,30 @@ theorem pixel_criterion (ch1 ch2 ch4 ch5 : Img) (i j : Nat) :
       var3 (zipImg absDiff ch1 ch2) i j > 4 ∧ var3 (zipImg relDiff ch4 ch5) i j > 4 := by
   simp [tsmPixel]
 
+/-- **The criterion is local**: whether a pixel is selected depends only on the 3x3 neighbourhoods of the two
+difference images around it - in particular on the lines directly above and below, also across any boundary at
+which an implementation might split a long scene into blocks. -/
+theorem var3_local (im im' : Img) (i j : Nat)
+    (h : ∀ di ∈ [(-1 : Int), 0, 1], ∀ dj ∈ [(-1 : Int), 0, 1],
+      pix im ((i : Int) + di) ((j : Int) + dj) = pix im' ((i : Int) + di) ((j : Int) + dj)) :
+    var3 im i j = var3 im' i j := by
+  have e : window3 im i j = window3 im' i j := by
+    unfold window3
+    simp only [List.flatMap_cons, List.flatMap_nil, List.map_cons, List.map_nil, List.append_nil]
+    rw [h (-1) (by simp) (-1) (by simp), h (-1) (by simp) 0 (by simp), h (-1) (by simp) 1 (by simp),
+      h 0 (by simp) (-1) (by simp), h 0 (by simp) 0 (by simp), h 0 (by simp) 1 (by simp),
+      h 1 (by simp) (-1) (by simp), h 1 (by simp) 0 (by simp), h 1 (by simp) 1 (by simp)]
+  unfold var3
+  rw [e]
+
+/-- ... and it is NOT determined by the pixel's own line: the same two lines processed as one scene and as
+two one-line scenes select different pixels (why a block-wise filter needs the neighbouring lines). -/
+theorem blockwise_differs :
+    let top : List (Option Rat) := [some 10, some 10, some 10]
+    let bot : List (Option Rat) := [some 10, some 60, some 10]
+    var3 [top, bot] 0 1 ≠ var3 [top] 0 1 := by
+  decide +kernel
+
 /-- a standard deviation exceeds 2 exactly when the variance exceeds 4 (for the non-negative root) -/
 theorem std_gt_two_iff (v s : Rat) (hs : 0 ≤ s) (hv : s * s = v) : s > 2 ↔ v > 4 := by
   constructor
